@@ -91,6 +91,7 @@ func runC10(e *Engine, g G, o RunOpt) RunInfo {
 		e.Net.Latency = time.Duration(sc.LatencyNs)
 	}
 	script := DefaultNeg()
+	script.ResumeOne = g.Pct("resume-spelled-1", 25)
 	script.SM = true
 
 	established := false
